@@ -525,7 +525,10 @@ def execute(prop, cfg, steps_iter, seed, tier, faulty, keep_trace=False):
         world.sessions.clear()
         gc.collect()
         simfs.mount(None)
-    _finish(world, res, steps, cfg, prop, seed, tier, faulty, keep_trace)
+    try:
+        _finish(world, res, steps, cfg, prop, seed, tier, faulty, keep_trace)
+    finally:
+        world.fs.destroy()       # the simulated disk's memory files and descriptors go with the run
     res.wall = _time.perf_counter() - t0
     return res
 
